@@ -169,28 +169,26 @@ SDIR_EXTENSION = b"sdir"  # Sparse directory extension
 
 
 def _encode_varint(value: int) -> bytes:
-    """Encode an integer using variable-width encoding.
+    """Encode an integer using git's variable-width encoding.
 
-    Same format as used for OFS_DELTA pack entries and index v4 path compression.
-    Uses 7 bits per byte, with the high bit indicating continuation.
+    Same format as used for OFS_DELTA pack entries and index v4 path
+    compression (varint.c in git): 7 bits per byte, most significant group
+    first, the high bit indicating continuation, and every group but the
+    last stored minus one so that each value has exactly one encoding.
 
     Args:
       value: Integer to encode
     Returns:
       Encoded bytes
     """
-    if value == 0:
-        return b"\x00"
-
-    result = []
+    result = [value & 0x7F]
+    value >>= 7
     while value > 0:
-        byte = value & 0x7F  # Take lower 7 bits
+        value -= 1
+        result.append(0x80 | (value & 0x7F))
         value >>= 7
-        if value > 0:
-            byte |= 0x80  # Set continuation bit
-        result.append(byte)
 
-    return bytes(result)
+    return bytes(reversed(result))
 
 
 def _decode_varint(data: bytes, offset: int = 0) -> tuple[int, int]:
@@ -202,15 +200,18 @@ def _decode_varint(data: bytes, offset: int = 0) -> tuple[int, int]:
     Returns:
       tuple of (decoded_value, new_offset)
     """
-    value = 0
-    shift = 0
     pos = offset
+    # Every 7-bit group but the last is stored minus one: adding one before
+    # each shift undoes that, and starting from -1 makes the first group
+    # come out unchanged.
+    value = -1
 
-    while pos < len(data):
+    while True:
+        if pos >= len(data):
+            raise ValueError("Unexpected end of data while reading varint")
         byte = data[pos]
         pos += 1
-        value |= (byte & 0x7F) << shift
-        shift += 7
+        value = ((value + 1) << 7) | (byte & 0x7F)
         if not (byte & 0x80):  # No continuation bit
             break
 
@@ -298,8 +299,8 @@ def _decompress_path_from_stream(
       tuple of (decompressed_path, bytes_consumed)
     """
     # Decode the varint for remove_len by reading byte by byte
-    remove_len = 0
-    shift = 0
+    # (same arithmetic as _decode_varint)
+    remove_len = -1
     bytes_consumed = 0
 
     while True:
@@ -308,8 +309,7 @@ def _decompress_path_from_stream(
             raise ValueError("Unexpected end of file while reading varint")
         byte = byte_data[0]
         bytes_consumed += 1
-        remove_len |= (byte & 0x7F) << shift
-        shift += 7
+        remove_len = ((remove_len + 1) << 7) | (byte & 0x7F)
         if not (byte & 0x80):  # No continuation bit
             break
 
